@@ -74,16 +74,24 @@ Theorem C04_any_arrival_order_of_statistics : forall (N : NumOps) (rs rs' : list
 Proof. exact @merge_int_perm. Qed.
 Print Assumptions C04_any_arrival_order_of_statistics.
 
-(** The distance total is order-independent only where addition is commutative and associative;
-    for float64 it is not (known finding: last-bit differences between thread settings and runs). *)
-Theorem C04_distance_total_under_ring_laws : forall (N : NumOps),
-  (forall a b : K N, kadd N a b = kadd N b a) ->
-  (forall a b c : K N, kadd N a (kadd N b c) = kadd N (kadd N a b) c) ->
-  forall (rs rs' : list (table N * ustats N)), Permutation rs rs' -> forall ut : ustats N,
-  us_distance (fold_left (fun ut wr => merge_stats ut (snd wr)) rs ut) =
-  us_distance (fold_left (fun ut wr => merge_stats ut (snd wr)) rs' ut).
-Proof. exact @merge_distance_perm. Qed.
-Print Assumptions C04_distance_total_under_ring_laws.
+(** The distance total (with the repair: per-prefix totals, each taken from the one worker that owns the
+    prefix and added in prefix order): for every accepted thread setting the daily update reports
+    [distance_total] of the snapshot - an expression in which the thread setting does not occur - with
+    no assumption on the arithmetic beyond 0 == 0 (true of float64); two parameter sets that differ in
+    the thread setting only therefore report bit-identical totals. *)
+Theorem C04_distance_total_for_every_thread_setting : forall (N : NumOps) (e : engine N) now fit,
+  now mod SecondsInDay = 0 ->
+  0 <= pThreads (a_params (e_admin e)) < 256 -> valid_threads (pThreads (a_params (e_admin e))) = true ->
+  keys_ok (e_table e) -> keqb N (k0 N) (k0 N) = true ->
+  us_distance (snd (fst (update_all e now fit))) =
+  distance_total (a_params (e_admin e)) (share_of e) now (e_table e).
+Proof. exact @update_all_distance. Qed.
+Print Assumptions C04_distance_total_for_every_thread_setting.
+
+Theorem C04_distance_total_ignores_the_thread_setting : forall (N : NumOps) (p1 p2 : params N) share now (tb : table N),
+  th_params p1 = th_params p2 -> distance_total p1 share now tb = distance_total p2 share now tb.
+Proof. exact @distance_total_ignores_threads. Qed.
+Print Assumptions C04_distance_total_ignores_the_thread_setting.
 
 (** Non-vacuity: the six permitted settings and what they cut. *)
 Example C04_nonvacuous :
